@@ -285,8 +285,12 @@ psRes_t psX509ParseCertData(psPool_t *pool,
                 certData->len,
                 &current,
                 flags);
-        if (err < 0 && !(flags & CERT_ALLOW_BUNDLE_PARTIAL_PARSE))
+        if (err < 0 && (err == PS_MEM_FAIL ||
+                !(flags & CERT_ALLOW_BUNDLE_PARTIAL_PARSE)))
         {
+            /* Partial parsing tolerates certificates we cannot read, not
+               running out of memory: the caller must not be told that a
+               bundle was loaded when some of it was dropped for that. */
             psX509FreeCert(current);
             psFreeList(certDatas, pool);
             return err;
